@@ -1032,6 +1032,47 @@ func genAdminGate() string {
 		}
 		return guards, false
 	}
+	// … and, in replaceLocalAdminServer, whether the assignment to the package variable localAdminServer
+	// comes after the Listen call AND after an `if err != nil { return … }` that follows that call
+	// (top-level statements, source order)
+	assignedAfterBind := false
+	if gd := findFunc(f, "", "replaceLocalAdminServer"); gd != nil && gd.Body != nil {
+		listenAt, errCheckAt, assignAt := -1, -1, -1
+		for i, st := range gd.Body.List {
+			hasListen, assigns := false, false
+			ast.Inspect(st, func(x ast.Node) bool {
+				switch t := x.(type) {
+				case *ast.FuncLit:
+					return false
+				case *ast.CallExpr:
+					if strings.HasSuffix(exprText(t.Fun), ".Listen") {
+						hasListen = true
+					}
+				case *ast.AssignStmt:
+					for _, lhs := range t.Lhs {
+						if id, ok := lhs.(*ast.Ident); ok && id.Name == "localAdminServer" {
+							assigns = true
+						}
+					}
+				}
+				return true
+			})
+			if hasListen && listenAt < 0 {
+				listenAt = i
+			}
+			if ifs, ok := st.(*ast.IfStmt); ok && listenAt >= 0 && errCheckAt < 0 && exprText(ifs.Cond) == "err!=nil" {
+				for _, b := range ifs.Body.List {
+					if _, ok := b.(*ast.ReturnStmt); ok {
+						errCheckAt = i
+					}
+				}
+			}
+			if assigns && assignAt < 0 {
+				assignAt = i
+			}
+		}
+		assignedAfterBind = listenAt >= 0 && errCheckAt > listenAt && assignAt > errCheckAt
+	}
 	lg, lstop := guardsBeforeStop("replaceLocalAdminServer")
 	rg, rstop := guardsBeforeStop("replaceRemoteAdminServer")
 	return header +
@@ -1039,7 +1080,9 @@ func genAdminGate() string {
 		"def localGuardsBeforeStop : List String := " + leanStrList(lg) + "\n" +
 		"def localStopsPreviousServer : Bool := " + strconv.FormatBool(lstop) + "\n" +
 		"def remoteGuardsBeforeStop : List String := " + leanStrList(rg) + "\n" +
-		"def remoteStopsPreviousServer : Bool := " + strconv.FormatBool(rstop) + "\n\n" +
+		"def remoteStopsPreviousServer : Bool := " + strconv.FormatBool(rstop) + "\n" +
+		"/-- replaceLocalAdminServer assigns `localAdminServer` only after the listener is bound and its error returned -/\n" +
+		"def localServerAssignedAfterBind : Bool := " + strconv.FormatBool(assignedAfterBind) + "\n\n" +
 		"/-- the route patterns registered by the admin.api modules of the tree: every `AdminRoute{Pattern: …}` composite\n    literal outside admin.go, tests and verif hooks, as (file, pattern); an identifier is resolved to the string\n    constant of its package -/\n" +
 		"def moduleAdminRoutePatterns : List (String × String) := [" + strings.Join(modRoutes, ", ") + "]\n\n" +
 		"/-- the gates in the order `adminHandler.serveHTTP` (admin.go) reaches them, helpers of the same file inlined:\n    remote ACL, websocket refusal, host check, origin check, then the mux -/\n" +
